@@ -13,6 +13,10 @@ from wordseg import utils
 
 def _threshold_relative(units, tps):
     """Relative threshold segmentation method"""
+    if len(units) < 3:
+        # not enough units to compare a transition with its neighbours
+        return [list(units)]
+
     prelast = units[0]
     last = units[1]
     unit = units[2]
@@ -39,6 +43,9 @@ def _threshold_relative(units, tps):
 
 def _threshold_absolute(units, tps):
     """Absolute threshold segmentation method"""
+    if not units:
+        return [[]]
+
     last = units[0]
     last_word = [last]
 
@@ -153,7 +160,10 @@ def segment(text, train_text=None, threshold='relative', dependency='ftp',
              threshold, dependency)
 
     # calculate test_unit and train_unit
-    test_units = ' UB '.join(line.strip() for line in text).split()
+    text = [line.strip() for line in text]
+    if not text:
+        return []
+    test_units = ' UB '.join(text).split()
 
     if train_text is None:
         train_units = test_units
